@@ -192,6 +192,19 @@ reg("C16",
     "Note timestamps used by the reference are the parsed chart's (their correctness is C01).",
     "DESIGN.md section 4, C16")
 
+reg("C18",
+    "Hypothesis mutation sequences and fragment assembly plus coverage-guided fuzzing (atheris/libFuzzer, structure-aware decoder and raw text with dictionary) with an exception-class / render oracle inside the target",
+    "Exploration by generated-input search: 1..8/16 line- and character-level edits of rendered well-formed "
+    "charts with a dictionary of corner-value fragments, texts assembled from arbitrary fragments, and "
+    "atheris campaigns (4 processes x 12k runs quick, 16 x 400k thorough; structured and raw decoders, "
+    "empty and seeded corpora, chartparse instrumented for coverage). Any exception other than "
+    "ValueError / RegexNotMatchError / MissingRequiredField, or a failing str()/repr() of a returned "
+    "chart or event, is a violation; crashes are delta-debugged into replay files.",
+    "Inputs outside the property's numeric bounds (9+ digit runs, TS exponent >= 64) are skipped and "
+    "counted. libFuzzer campaigns are only approximately reproducible from the seed; the saved input "
+    "is the reproducible unit. If atheris cannot be imported the part is skipped and says so in evidence.",
+    "DESIGN.md section 4, C18")
+
 
 def build():
     checks = []
